@@ -440,7 +440,7 @@ def replay_vsched(ctx, rd, meta):
 # missing or wrong lock is reported by the happens-before detector instead. The baton is invisible to TSan; the
 # modelled mutexes are annotated (harness/vsched). A report = the child exits with TSan's exit code (Died sig 166).
 
-TSAN_ENV = {"TSAN_OPTIONS": "halt_on_error=1:exitcode=66:report_signal_unsafe=0:second_deadlock_stack=0:history_size=4",
+TSAN_ENV = {"TSAN_OPTIONS": "halt_on_error=1:exitcode=66:report_signal_unsafe=0:report_thread_leaks=0:report_destroy_locked=0:history_size=4",
             "TZ": "UTC"}
 
 
@@ -502,6 +502,10 @@ def race_scan(ctx, harness_name, src, blocks, *, label="race", nbatch=None, time
             open(os.path.join(rd, "tsan_report.txt"), "w").write(rep)
             json.dump({"property": ctx.pid, "vsched": True, "tsan": True, "harness": os.path.basename(exe), "policy": ex["policy"],
                        "scenario": ex["scenario"], "what": "data race"}, open(os.path.join(rd, "replay.json"), "w"), indent=1)
+            if "data race" not in rep:
+                # only data races are judged here (thread leaks, lock-order reports etc. are other checks' business)
+                ctx.extra["tsan_other_reports"] = ctx.extra.get("tsan_other_reports", 0) + 1
+                continue
             if not again:
                 raise CheckError("ThreadSanitizer report did not reproduce in isolation; replay dir %s" % rd)
             first = [l.strip() for l in rep.splitlines() if l.strip().startswith("#0") or "data race" in l][:3]
